@@ -23,6 +23,10 @@ inductive Op
   | crashAppend (b : List Nat) (k : Nat)
   /-- crash after `k` bytes of the footer write of `Advance()`, then reopen -/
   | crashAdv (k : Nat)
+  /-- `Append(b)` has to start a new segment file: crash after `k` bytes of that
+      file's initial footer write (`addSegment`), before the entry is written; then
+      reopen.  A plain reopen if the append would not start a new segment. -/
+  | crashSeg (b : List Nat) (k : Nat)
   /-- `TotalSegments`, `DiskUsage`, `TotalBytes`, head position (tie only) -/
   | stat
 deriving DecidableEq, Repr
